@@ -38,6 +38,7 @@ def pool():
     C1 = RecordDescriptor("t/c", [("stringlist", "a"), ("string", "b")])             # identifiers coincide
     C2 = RecordDescriptor("t/c", [("string", "a"), ("string", "listb")])
     N = RecordDescriptor("t/n", [("record", "r"), ("record[]", "rs"), ("varint", "k")])
+    Z = RecordDescriptor("t/z", [])                                                   # a type without fields of its own
     # (harness precondition about the hash input only; that C1 and C2 are DIFFERENT descriptors for the library is part
     # of what the histories below test: a descriptor comparison that confuses them loses C2's definition frame)
     assert C1.identifier == C2.identifier
@@ -50,6 +51,9 @@ def pool():
         "N_C2": lambda i: N(r=C2(a="z", listb="w", _generated=T0), rs=[], k=i, _generated=T0),
         "G": lambda i: GroupedRecord("grp/x", [A(s="g", n=i, _generated=T0), C2(a="u", listb="v", _generated=T0)]),
         "G_N": lambda i: GroupedRecord("grp/y", [N(r=A2(s="d", _generated=T0), rs=[], k=i, _generated=T0), A(s="h", n=i, _generated=T0)]),
+        "Z": lambda i: Z(_generated=T0, _source="z%d" % i),
+        "N_Z": lambda i: N(r=Z(_generated=T0), rs=[Z(_generated=T0), A(s="nz", n=i, _generated=T0)], k=i, _generated=T0),
+        "G_C1": lambda i: GroupedRecord("grp/w", [A2(s="gc", _generated=T0), C1(a=["m%d" % i], b="n", _generated=T0)]),
         # two members whose types share a NAME but not their fields (two versions of one type in a group)
         "G_AA2": lambda i: GroupedRecord("grp/z", [A(s="v1", n=i, _generated=T0), A2(s="v2", _generated=T0)]),
         "G_A2A": lambda i: GroupedRecord("grp/z", [A2(s="w2", _generated=T0), A(s="w1", n=i, _generated=T0), A2(s="w3", _generated=T0)]),
@@ -207,7 +211,10 @@ def run_history(ctx, mk, hist, nwriters, workdir):
         err = check_binary_stream(ctx, datas[w], per[w], "writer %d" % w)
         if err:
             return "binary writer %d: %s" % (w, err), datas, per
-        rb = sc.read_stream_items(datas[w])
+        try:
+            rb = sc.read_stream_items(datas[w])
+        except Exception as e:  # noqa
+            return "binary writer %d: reading the stream back raised %s: %s" % (w, type(e).__name__, e), datas, per
         a = [recgen.canon(recgen.obs_item(x, True)) for x in per[w]]
         b = [recgen.canon(recgen.obs_item(x, True)) for x in rb]
         if a != b:
@@ -241,6 +248,12 @@ def histories(ctx, mk):
     maxlen = 2 if ctx.tier == "quick" else 3
     for n in range(1, maxlen + 1):
         for combo in itertools.product(kinds, repeat=n):
+            yield 1, [(0, k) for k in combo], True
+    if maxlen < 3:
+        # every history of length 3 over the identifier-coincident family (plain, nested, as group members): a shortcut taken
+        # for "the same type as just before" must not survive a descriptor change made by the item in between
+        family = [k for k in ("C1", "C2", "G", "G_C1", "N_C2") if k in mk]
+        for combo in itertools.product(family, repeat=3):
             yield 1, [(0, k) for k in combo], True
     for _ in range(60 if ctx.tier == "quick" else 600):
         nw = rnd.choice([1, 2, 3])
